@@ -203,4 +203,10 @@ def check(repo: Repo, rep: Report) -> None:
         loop_flags = {cell_name(e) for w in waits for e, p_ in w.ctx.guards if not p_ and cell_name(e)}
         done_ok = all(fl in names_assigned_const(g, True) for fl in loop_flags)
         ok = sets and done_ok and (nm != "on_error" or len(exc_v) == 1)
+        if nm == "on_error" and len(exc_v) == 1:
+            # publication order: the outcome is stored before the flag the (lock-free) waiting loop tests is raised
+            store = [s for s in sites(g) if isinstance(s.node, ast.Assign) and cell_name(s.node.targets[0]) == exception]
+            flags = [s for s in sites(g) if isinstance(s.node, ast.Assign) and cell_name(s.node.targets[0]) in loop_flags and u(s.node.value) == "True"]
+            rel = [s for s in sites(g) if isinstance(s.node, ast.Call) and dotted(s.node.func) == f"{latch}.set"]
+            ok = ok and bool(store) and all(store[0].index < f_.index for f_ in flags + rel)
         rep.ob("T3-blocking-result", g, f"run.{nm} records the outcome and releases the waiter", ok, f"run.{nm} does not wake the blocked caller")
